@@ -424,6 +424,30 @@ pub fn ops_of(rng: &mut Rng, lines: Vec<(i64, Vec<u8>, String)>, ch: Chunking) -
     ops
 }
 
+/// Options that must not influence what a property's oracle looks at, added to a run's option vector
+/// (an option whose name is already present is left alone).  `allow_update`: `--update` may be varied;
+/// `allow_quiet`: the display may be silenced.
+pub fn add_neutral_options(rng: &mut Rng, args: &mut Vec<String>, allow_update: bool, allow_quiet: bool) {
+    let has = |args: &Vec<String>, name: &str| args.iter().any(|a| a == name || a.starts_with(&format!("{}=", name)));
+    if rng.chance(0.15) && !has(args, "--log-messages") {
+        for _ in 0..rng.range(1, 2) { args.push(format!("--log-messages={}", rng.pick(&[0u32, 4, 5, 11, 16, 17, 18, 20, 21, 24]))); }
+    }
+    if rng.chance(0.1) && !has(args, "--downlink-log") { args.push("--downlink-log=/dev/null".into()); }
+    if rng.chance(0.2) && !has(args, "--order-by") {
+        let n = rng.range(0, 4);
+        args.push(format!("--order-by={}", (0..n).map(|_| *rng.pick(b"saAvVNSWEdDcC") as char).collect::<String>()));
+    }
+    if rng.chance(0.2) && !has(args, "--display-info") {
+        let n = rng.range(0, 5);
+        let mut s: String = (0..n).map(|_| *rng.pick(b"aAewsQ") as char).collect();
+        if !allow_quiet { s = s.replace('Q', ""); }
+        args.push(format!("--display-info={}", s));
+    }
+    if rng.chance(0.15) && !has(args, "--count-df") { args.push("--count-df".into()); }
+    if allow_update && rng.chance(0.25) && !has(args, "--update") { args.push(format!("--update={}", rng.pick(&[-1i64, 0, 1, 3, 30, 600]))); }
+    if rng.chance(0.1) && !has(args, "--observer-coord") { args.push(format!("--observer-coord={:.3},{:.3}", rng.f64() * 170.0 - 85.0, rng.f64() * 358.0 - 179.0)); }
+}
+
 /// DF20/21 (or DF16) reply whose BDS 3,0 ACAS resolution advisory names `intruder` as the threat
 /// (TTI = 01, TID = Mode S address): a frame of one aircraft that mentions another.
 pub fn acas_ra_frame(rng: &mut Rng, ac: &Ac, intruder: u32) -> Vec<u8> {
